@@ -183,8 +183,11 @@ func (l *Log) addChainOrPreChain(ctx context.Context, reqBody io.ReadCloser, che
 
 		defangedTBS, err := x509.BuildPrecertTBS(chain[0].RawTBSCertificate, preIssuer)
 		if err != nil {
-			l.c.Log.ErrorContext(ctx, "failed to build TBSCertificate", "err", err, "body", body)
-			return nil, http.StatusInternalServerError, fmtErrorf("failed to build TBSCertificate: %w", err)
+			// BuildPrecertTBS only fails on malformed input (for example a
+			// precertificate with more than one poison extension), so this
+			// is a client error.
+			l.c.Log.WarnContext(ctx, "failed to build TBSCertificate", "err", err, "body", body)
+			return nil, http.StatusBadRequest, fmtErrorf("failed to build TBSCertificate: %w", err)
 		}
 
 		e.IsPrecert = true
